@@ -9,10 +9,10 @@ wt = "/tmp/seed_" + prop
 runseeds.sh("git checkout -q -- . && git checkout -q --detach main", cwd=wt)
 rc, out = runseeds.sh("git apply /verif/seeded/%s/patch.diff" % sid, cwd=wt)
 assert rc == 0, out
-runseeds.mirror(wt)
+mdir = runseeds.mirror(wt)
 meta = json.load(open("/verif/seeded/%s/meta.json" % sid))
 for c in checks:
-    rc, out = runseeds.sh("./check %s --tier quick" % c, cwd=runseeds.MIRROR, env={"VERIF_REPO": wt})
+    rc, out = runseeds.sh("./check %s --tier quick" % c, cwd=mdir, env={"VERIF_REPO": wt})
     vl = [l for l in out.split("\n") if l.startswith("VIOLATION") or "TOOL ERROR" in l or l.startswith("KNOWN")]
     meta["ran"]["checks"][c] = {"rc": rc, "lines": vl[:3]}
     print(sid, c, rc, vl[:2])
